@@ -422,7 +422,7 @@ fn gen_cases(seed: u64, n: usize, tier: &str) -> Vec<Case> {
         }
     }
     // nested scales multiplied by --flatten-components
-    for (s1, s2) in [(1.25, 1.5), (1.25, 1.6), (1.5, 1.5), (2.0, 1.0), (2.0, 1.25), (2.0, 2.0), (-1.5, 1.5), (-1.25, 1.6), (1.0, 1.0), (0.5, 3.0)] {
+    for (s1, s2) in [(1.25, 1.5), (1.25, 1.6), (1.5, 1.5), (2.0, 1.0), (2.0, 1.25), (2.0, 2.0), (-1.5, 1.5), (-1.25, 1.6), (1.0, 1.0), (0.5, 2.0), (-2.0, -2.0)] {
         push("flatscale", s1, s2, 0, "boundary", &mut v);
     }
     // composite bounding box: offsets fit, the composed extreme does not
@@ -437,19 +437,23 @@ fn gen_cases(seed: u64, n: usize, tier: &str) -> Vec<Case> {
     for (d0, dv) in [(100.0, 32767.0), (100.0, 32768.0), (100.0, 40000.0), (100.0, 65435.0), (40000.0, -32768.0), (40000.0, -32769.0), (40000.0, -40000.0), (500.0, 100.0)] {
         push("hvar", d0, dv, 0, "boundary", &mut v);
     }
-    for (x0, dv) in [(-16383.0, 32767.0), (-16384.0, 32768.0), (-20000.0, 40000.0), (-32768.0, 65535.0), (16384.0, -32768.0), (16385.0, -32769.0), (20000.0, -40000.0), (100.0, 50.0)] {
+    for (x0, dv) in [(-16383.0, 32767.0), (-16384.0, 32768.0), (-20000.0, 40000.0), (-32768.0, 65535.0), (16384.0, -32768.0), (16385.0, -32769.0), (20000.0, -40000.0), (100.0, 50.0), (32767.0, -65535.0), (-5.0, 32772.0)] {
         push("gvar", x0, dv, 0, "boundary", &mut v);
         push("compdelta", x0, dv, 0, "boundary", &mut v);
     }
     // composite totals (components x points of the component)
-    for (k, m) in [(255u64, 257.0), (256, 256.0), (93, 700.0), (94, 700.0), (100, 700.0), (2, 32768.0), (3, 21845.0), (1, 65535.0)] {
+    for (k, m) in [(255u64, 257.0), (256, 256.0), (93, 700.0), (94, 700.0)] {
         push("comptotal", m, 0.0, k, "boundary", &mut v);
     }
     // points in one glyph
-    for np in [65534u64, 65535, 65536, 65537] {
+    for np in [65535u64, 65536, 65537] {
         push("npoints", 0.0, 0.0, np, "boundary", &mut v);
     }
     if tier == "thorough" {
+        for (k, m) in [(2u64, 32768.0), (3, 21845.0), (1, 65535.0), (300, 300.0)] {
+            push("comptotal", m, 0.0, k, "boundary", &mut v);
+        }
+        push("npoints", 0.0, 0.0, 65534, "boundary", &mut v);
         push("npoints", 0.0, 0.0, 70000, "boundary", &mut v);
         push("npoints", 0.0, 0.0, 131073, "boundary", &mut v);
         for ng in [65534u64, 65535, 65536] {
@@ -505,7 +509,7 @@ fn gen_cases(seed: u64, n: usize, tier: &str) -> Vec<Case> {
             }
             8 => {
                 let s1 = rng.range(-32, 32) as f64 / 16.0;
-                let s2 = rng.range(4, 40) as f64 / 16.0;
+                let s2 = rng.range(4, 32) as f64 / 16.0;
                 let d = if (s1 * s2).abs() > 2.0 { "far" } else { "inrange" };
                 push("flatscale", s1, s2, 0, d, &mut v);
             }
@@ -730,20 +734,17 @@ fn build_source(c: &Case) -> Option<Source> {
         "gvar" => {
             let g = |x: f64| {
                 let mut a = GlyphSrc::new("a", 600.0).uni(0x61);
-                let w = if x >= 0.0 { x - 100.0 } else { x + 100.0 };
-                a.contours.push(rect(x.min(w), 0.0, x.max(w), 100.0));
+                a.contours.push(vec![(0.0, 0.0, Pt::Line), (x, 0.0, Pt::Line), (x, 100.0, Pt::Line), (0.0, 100.0, Pt::Line)]);
                 vec![a]
             };
             two_masters("C19V", g(c.a), g(c.a + c.b), &["a"])
         }
         "compdelta" => {
             let g = |x: f64| {
-                let base = if x >= 0.0 { "an" } else { "ap" };
-                let _ = base;
-                // the same base in both masters (components must be consistent): a point at the origin side
+                // the base is a unit square at the origin, so the composed extreme is the offset (+1)
                 let cc = GlyphSrc::new("c", 600.0).uni(0x63).comp("az", [1.0, 0.0, 0.0, 1.0, x, 0.0]);
                 let mut az = GlyphSrc::new("az", 600.0);
-                az.contours.push(rect(0.0, 0.0, 0.0 + 1.0, 1.0));
+                az.contours.push(rect(0.0, 0.0, 1.0, 1.0));
                 vec![az, cc]
             };
             two_masters("C19V", g(c.a), g(c.a + c.b), &["az", "c"])
@@ -1120,29 +1121,40 @@ impl skrifa::outline::OutlinePen for PtsPen {
     fn close(&mut self) {}
 }
 
-/// advance and the bounding box of the outline (xmin, ymin, xmax, ymax) of glyph `gid` at wght = `w`
+/// x extent (xmin, xmax) of the outline of glyph `gid` at wght = `w`, as skrifa draws it
 fn skrifa_at(bytes: &[u8], gid: u32, w: f32) -> Option<Vec<i64>> {
     use skrifa::instance::Size;
     use skrifa::outline::DrawSettings;
     use skrifa::{FontRef, GlyphId, MetadataProvider};
     let font = FontRef::new(bytes).ok()?;
     let loc = font.axes().location([("wght", w)]);
-    let adv = font.glyph_metrics(Size::unscaled(), &loc).advance_width(GlyphId::new(gid))?;
     let g = font.outline_glyphs().get(GlyphId::new(gid))?;
     let mut pen = PtsPen(Vec::new());
     g.draw(DrawSettings::unhinted(Size::unscaled(), &loc), &mut pen).ok()?;
-    let mut out = vec![adv.round() as i64];
     if pen.0.is_empty() {
-        out.extend([0, 0, 0, 0]);
-    } else {
-        let xs = pen.0.iter().map(|p| p.0);
-        let ys = pen.0.iter().map(|p| p.1);
-        out.push(xs.clone().fold(f32::INFINITY, f32::min).round() as i64);
-        out.push(ys.clone().fold(f32::INFINITY, f32::min).round() as i64);
-        out.push(xs.fold(f32::NEG_INFINITY, f32::max).round() as i64);
-        out.push(ys.fold(f32::NEG_INFINITY, f32::max).round() as i64);
+        return Some(vec![0, 0]);
     }
-    Some(out)
+    let xs = pen.0.iter().map(|p| p.0);
+    Some(vec![xs.clone().fold(f32::INFINITY, f32::min).round() as i64, xs.fold(f32::NEG_INFINITY, f32::max).round() as i64])
+}
+
+/// hmtx advance of `gid` plus the HVAR delta at normalized wght = 1 (item variation store
+/// evaluated in i32 by read-fonts)
+fn hvar_advance_at_max(bytes: &[u8], gid: u16) -> Option<i64> {
+    use write_fonts::read::tables::variations::DeltaSetIndex;
+    use write_fonts::read::types::{F2Dot14, GlyphId};
+    use write_fonts::read::{FontRef, TableProvider};
+    let f = Font::new(bytes)?;
+    let base = f.metric(b"hmtx", b"hhea", gid as usize)?.0;
+    let font = FontRef::new(bytes).ok()?;
+    let hvar = font.hvar().ok()?;
+    let idx = match hvar.advance_width_mapping() {
+        Some(m) => m.ok()?.get(gid as u32).ok()?,
+        None => DeltaSetIndex { outer: 0, inner: gid },
+    };
+    let _ = GlyphId::new(gid as u32);
+    let d = hvar.item_variation_store().ok()?.compute_delta(idx, &[F2Dot14::from_f32(1.0)]).ok()?;
+    Some(base + d as i64)
 }
 
 /// decoded fields of a compiled font for a case; None = the font could not be decoded
@@ -1180,7 +1192,11 @@ fn fields_of(c: &Case, bytes: &[u8]) -> Option<Vec<i64>> {
         "hhea" => {
             out.push(f.hea(b"hhea", 4 + 2 * c.n as usize, true)?);
         }
-        "hvar" | "gvar" => {
+        "hvar" => {
+            out.push(f.metric(b"hmtx", b"hhea", 1)?.0);
+            out.push(hvar_advance_at_max(bytes, 1)?);
+        }
+        "gvar" => {
             out.extend(skrifa_at(bytes, 1, 400.0)?);
             out.extend(skrifa_at(bytes, 1, 700.0)?);
         }
@@ -1197,10 +1213,9 @@ fn fields_of(c: &Case, bytes: &[u8]) -> Option<Vec<i64>> {
         "npoints" => {
             out.push(f.maxp(1)?);
             match f.glyph(1)? {
-                Body::Simple { ends, pts, .. } => {
+                Body::Simple { ends, .. } => {
                     out.push(ends.len() as i64);
                     out.push(*ends.last().unwrap_or(&-1));
-                    out.push(pts.len() as i64);
                 }
                 _ => out.push(-1),
             }
@@ -1260,15 +1275,453 @@ fn obs_from_json(v: &Value) -> Option<(usize, Obs)> {
     ))
 }
 
+// ------------------------------------------------------------------------------------------
+// 3. the property predicate, evaluated on what the implementation emitted
+// ------------------------------------------------------------------------------------------
+
+/// ot_round in exact arithmetic (all generated values are multiples of 1/4 or of 2^-16)
+fn otr(x: f64) -> i64 {
+    (x + 0.5).floor() as i64
+}
+fn fits16(z: i64) -> bool {
+    (-32768..=32767).contains(&z)
+}
+fn fitsu16(z: i64) -> bool {
+    (0..=65535).contains(&z)
+}
+
+const NOTDEF_BBOX: [i64; 4] = [50, -200, 450, 800];
+
+fn union(a: [i64; 4], b: [i64; 4]) -> [i64; 4] {
+    [a[0].min(b[0]), a[1].min(b[1]), a[2].max(b[2]), a[3].max(b[3])]
+}
+
+fn emit_order<T: Clone>(c: &[T]) -> Vec<T> {
+    let mut v = Vec::with_capacity(c.len());
+    if let Some(p) = c.first() {
+        v.push(p.clone());
+        v.extend(c[1..].iter().rev().cloned());
+    }
+    v
+}
+
+fn bbox_pts(pts: &[(i64, i64)]) -> [i64; 4] {
+    let mut b = [i64::MAX, i64::MAX, i64::MIN, i64::MIN];
+    for (x, y) in pts {
+        b = [b[0].min(*x), b[1].min(*y), b[2].max(*x), b[3].max(*y)];
+    }
+    b
+}
+
+/// the faithful glyf entry of an outline given in source order, if it is representable
+fn faithful_simple(cs: &[Vec<(f64, f64)>]) -> Option<Vec<i64>> {
+    let mut pts: Vec<(i64, i64)> = Vec::new();
+    let mut ends = Vec::new();
+    for c in cs {
+        for (x, y) in emit_order(c) {
+            pts.push((otr(x), otr(y)));
+        }
+        ends.push(pts.len() as i64 - 1);
+    }
+    if pts.len() > 65535 {
+        return None;
+    }
+    let (mut lx, mut ly) = (0, 0);
+    for (x, y) in &pts {
+        if !fits16(*x) || !fits16(*y) || !fits16(x - lx) || !fits16(y - ly) {
+            return None;
+        }
+        lx = *x;
+        ly = *y;
+    }
+    let mut out = Vec::new();
+    dump_body(&Body::Simple { bbox: bbox_pts(&pts), ends, pts }, &mut out);
+    Some(out)
+}
+
+fn body_bbox_from_dump(d: &[i64]) -> Option<[i64; 4]> {
+    let n = d.len();
+    if n < 4 {
+        return None;
+    }
+    Some([d[n - 4], d[n - 3], d[n - 2], d[n - 1]])
+}
+
+/// what the property asks of an emitted font for this case
+enum Expect {
+    /// the value is representable: the decoded fields must be exactly these
+    Exactly(Vec<i64>),
+    /// representable in more than one acceptable way (a composite within one 2.14 quantum of the
+    /// source transform, or the decomposed outline): any of these, compared with `tol` on the
+    /// positions listed in `approx`
+    AnyOf(Vec<(Vec<i64>, Vec<usize>)>),
+    /// the value cannot be represented: an emitted font is a violation whatever it contains
+    MustReject,
+}
+
+const SQ: [(f64, f64); 4] = [(0.0, 0.0), (100.0, 0.0), (100.0, 100.0), (0.0, 100.0)];
+
+fn tf(t: &[f64; 6], p: (f64, f64)) -> (f64, f64) {
+    (t[0] * p.0 + t[2] * p.1 + t[4], t[1] * p.0 + t[3] * p.1 + t[5])
+}
+
+fn transformed(t: &[f64; 6], c: &[(f64, f64)]) -> Vec<(f64, f64)> {
+    let v: Vec<(f64, f64)> = c.iter().map(|p| tf(t, *p)).collect();
+    if t[0] * t[3] - t[1] * t[2] < 0.0 { emit_order(&v) } else { v }
+}
+
+/// composite record fields `[gid, dx, dy, xx, yx, xy, yy]` for a transform, and whether every
+/// 2x2 entry is within [-2, 2] (representable to one quantum)
+fn comp_record(gid: i64, t: &[f64; 6]) -> (Vec<i64>, bool) {
+    let ok = t[..4].iter().all(|v| (-2.0..=2.0).contains(v)) && fits16(otr(t[4])) && fits16(otr(t[5]));
+    let q = |v: f64| (v * 16384.0).round() as i64;
+    (vec![gid, otr(t[4]), otr(t[5]), q(t[0]), q(t[1]), q(t[2]), q(t[3])], ok)
+}
+
+/// composite glyph dump for components of glyph "ap" (gid 1, the unit-100 square)
+fn faithful_composite_of_ap(ts: &[[f64; 6]]) -> (Option<(Vec<i64>, Vec<usize>)>, Option<Vec<i64>>) {
+    // as a composite
+    let mut out = vec![1, ts.len() as i64];
+    let mut approx = Vec::new();
+    let mut ok = true;
+    let mut pts = Vec::new();
+    for t in ts {
+        let (r, o) = comp_record(1, t);
+        ok &= o;
+        let base = out.len();
+        approx.extend([base + 3, base + 4, base + 5, base + 6]);
+        out.extend(r);
+        for p in SQ {
+            pts.push(tf(t, p));
+        }
+    }
+    let bb = [
+        otr(pts.iter().map(|p| p.0).fold(f64::INFINITY, f64::min)),
+        otr(pts.iter().map(|p| p.1).fold(f64::INFINITY, f64::min)),
+        otr(pts.iter().map(|p| p.0).fold(f64::NEG_INFINITY, f64::max)),
+        otr(pts.iter().map(|p| p.1).fold(f64::NEG_INFINITY, f64::max)),
+    ];
+    ok &= bb.iter().all(|v| fits16(*v));
+    let n0 = out.len();
+    approx.extend([n0, n0 + 1, n0 + 2, n0 + 3]); // the box follows the quantised transform
+    out.extend(bb);
+    // decomposed
+    let cs: Vec<Vec<(f64, f64)>> = ts.iter().map(|t| transformed(t, &SQ)).collect();
+    (if ok { Some((out, approx)) } else { None }, faithful_simple(&cs))
+}
+
+fn expect(c: &Case) -> Expect {
+    let ex = |v: Option<Vec<i64>>| match v {
+        Some(v) => Expect::Exactly(v),
+        None => Expect::MustReject,
+    };
+    match c.kind {
+        "adv" => {
+            let r = otr(c.a);
+            ex(fitsu16(r).then(|| vec![r, r.max(600)]))
+        }
+        "vadv" => {
+            let r = otr(c.a);
+            ex(fitsu16(r).then(|| vec![r, r.max(1000)]))
+        }
+        "coord" | "diff" => ex(faithful_simple(&coord_contours(c)).map(|mut d| {
+            let bb = body_bbox_from_dump(&d).unwrap();
+            d.extend(union(NOTDEF_BBOX, bb));
+            d
+        })),
+        "compoff" | "compbbox" => {
+            let r = otr(c.a);
+            let (dx, dy) = if c.n == 0 { (r, 0) } else { (0, r) };
+            let towards = (c.a >= 0.0) == (c.kind == "compoff");
+            let (gid, base) = if towards { (2, [-100, -100, 0, 0]) } else { (1, [0, 0, 100, 100]) };
+            let bb = [base[0] + dx, base[1] + dy, base[2] + dx, base[3] + dy];
+            let ok = fits16(r) && bb.iter().all(|v| fits16(*v));
+            ex(ok.then(|| {
+                let mut d = vec![1, 1, gid, dx, dy, 16384, 0, 0, 16384];
+                d.extend(bb);
+                d.extend(union(union(union(NOTDEF_BBOX, [0, 0, 100, 100]), [-100, -100, 0, 0]), bb));
+                d
+            }))
+        }
+        "scale" => {
+            let mut t = [1.0, 0.0, 0.0, 1.0, 0.0, 0.0];
+            t[c.n as usize] = c.a;
+            let (comp, simple) = faithful_composite_of_ap(&[t, [1.0, 0.0, 0.0, 1.0, 300.0, 0.0]]);
+            let mut alts = Vec::new();
+            if let Some(x) = comp {
+                alts.push(x);
+            }
+            if let Some(x) = simple {
+                alts.push((x, vec![]));
+            }
+            if alts.is_empty() { Expect::MustReject } else { Expect::AnyOf(alts) }
+        }
+        "flatscale" => {
+            let (s1, s2) = (c.a, c.b);
+            let ts = [[s1 * s2, 0.0, 0.0, s1 * s2, 0.0, 0.0], [s1, 0.0, 0.0, s1, s1 * 300.0, 0.0], [1.0, 0.0, 0.0, 1.0, 0.0, 300.0]];
+            let (comp, simple) = faithful_composite_of_ap(&ts);
+            let mut alts = Vec::new();
+            if let Some(x) = comp {
+                alts.push(x);
+            }
+            if let Some(x) = simple {
+                alts.push((x, vec![]));
+            }
+            if alts.is_empty() { Expect::MustReject } else { Expect::AnyOf(alts) }
+        }
+        "kern" => {
+            let r = otr(c.a);
+            ex(fits16(r).then(|| vec![r]))
+        }
+        "anchor" => {
+            let r = otr(c.a);
+            ex(fits16(r).then(|| if c.n == 0 { vec![r, 700, 50, 500] } else { vec![300, r, 50, 500] }))
+        }
+        "vorig" => {
+            // top side bearings: glyph a (yMax 0) and the synthesised .notdef (yMax 800)
+            let r = otr(c.a);
+            ex((fits16(r) && fits16(r - 800)).then(|| vec![r]))
+        }
+        "tsb" => {
+            let (ymax, origin) = (otr(c.a), otr(c.b));
+            ex((fits16(origin - ymax) && fits16(origin - 800) && fits16(ymax - 100)).then(|| vec![origin - ymax]))
+        }
+        "hhea" => {
+            let r = otr(c.a);
+            ex(fits16(r).then(|| vec![r]))
+        }
+        "hvar" => {
+            let (m0, m1) = (otr(c.a), otr(c.a + c.b));
+            ex((fitsu16(m0) && fitsu16(m1)).then(|| vec![m0, m1]))
+        }
+        "gvar" => {
+            let (x0, x1) = (otr(c.a), otr(c.a + c.b));
+            ex((fits16(x0) && fits16(x1)).then(|| vec![x0.min(0), x0.max(0), x1.min(0), x1.max(0)]))
+        }
+        "compdelta" => {
+            let (x0, x1) = (otr(c.a), otr(c.a + c.b));
+            ex((fits16(x0) && fits16(x0 + 1) && fits16(x1) && fits16(x1 + 1)).then(|| vec![x0, x0 + 1, x1, x1 + 1]))
+        }
+        "comptotal" => {
+            let (k, m) = (c.n as i64, c.a as i64);
+            ex((k * m <= 65535).then(|| vec![k * m, k, m.max(8), k]))
+        }
+        "npoints" => {
+            let n = c.n as i64;
+            ex((n <= 65535).then(|| vec![n.max(8), 1, n - 1]))
+        }
+        "nglyphs" => {
+            let n = c.n as i64;
+            ex((n <= 65535).then(|| vec![n, n]))
+        }
+        "widthclass" => ex((1..=9).contains(&c.n).then(|| vec![c.n as i64])),
+        _ => Expect::MustReject,
+    }
+}
+
+/// (site key for an emitted but unfaithful value, site key for a debug/release disagreement,
+///  what the field is)
+fn keys(kind: &str) -> (&'static str, &'static str, &'static str) {
+    match kind {
+        "adv" => ("hmtx-advance-saturates", "hmtx-advance-profiles-differ", "advance width (fontbe/src/metrics_and_limits.rs: width.ot_round() -> u16)"),
+        "vadv" => ("vmtx-advance-height-saturates", "vmtx-advance-height-profiles-differ", "advance height (fontir/src/ir.rs GlyphInstance::height: ot_round() -> u16)"),
+        "coord" => ("glyf-coordinate-saturates", "glyf-coordinate-delta-i16-overflow", "outline coordinate (write-fonts CurvePoint::from via fontbe/src/glyphs.rs: ot_round() -> i16)"),
+        "diff" => ("glyf-coordinate-saturates", "glyf-coordinate-delta-i16-overflow", "difference of successive outline coordinates (write-fonts SimpleGlyph::compute_point_deltas via fontbe/src/glyphs.rs: i16 `-`)"),
+        "compoff" => ("glyf-component-offset-saturates", "glyf-component-offset-profiles-differ", "component offset (fontbe/src/glyphs.rs create_component_ref_gid: e.ot_round() -> i16)"),
+        "compbbox" => ("glyf-composite-bbox-saturates", "glyf-composite-bbox-profiles-differ", "composite bounding box (fontbe/src/glyphs.rs compute_composite_bboxes: Rect -> Bbox, ot_round() -> i16)"),
+        "scale" => ("glyf-component-scale-saturates", "glyf-component-scale-profiles-differ", "component 2x2 entry (fontbe/src/glyphs.rs: F2Dot14::from_f64)"),
+        "flatscale" => ("glyf-flattened-component-scale-saturates", "glyf-flattened-component-scale-profiles-differ", "component 2x2 entry after --flatten-components (fontir/src/glyph.rs flatten_glyph, then fontbe/src/glyphs.rs F2Dot14::from_f64)"),
+        "kern" => ("gpos-kern-value-saturates", "gpos-kern-value-profiles-differ", "kerning value (fontbe/src/features.rs resolve_variable_metric: ot_round() -> i16)"),
+        "anchor" => ("gpos-anchor-coordinate-saturates", "gpos-anchor-coordinate-profiles-differ", "anchor coordinate (fontbe/src/features.rs resolve_variable_metric: ot_round() -> i16)"),
+        "vorig" => ("vmtx-vertical-origin-saturates", "vmtx-top-side-bearing-i16-overflow", "vertical origin (fontir/src/ir.rs GlyphInstance::vertical_origin: ot_round() -> i16)"),
+        "tsb" => ("vmtx-top-side-bearing-wraps", "vmtx-top-side-bearing-i16-overflow", "top side bearing (fontbe/src/vertical_metrics.rs: vertical_origin - bbox.y_max on i16)"),
+        "hhea" => ("hhea-line-metric-saturates", "hhea-line-metric-profiles-differ", "hhea ascender/descender/lineGap (fontbe/src/metrics_and_limits.rs: ot_round() -> i16)"),
+        "hvar" => ("hvar-advance-delta-saturates", "hvar-advance-delta-profiles-differ", "advance delta (fontbe/src/metric_variations.rs: values[0].ot_round() -> i16)"),
+        "gvar" => ("gvar-point-delta-saturates", "gvar-point-delta-profiles-differ", "outline point delta (write-fonts iup via fontbe/src/glyphs.rs compute_deltas: ot_round() -> i16)"),
+        "compdelta" => ("gvar-component-offset-delta-saturates", "gvar-component-offset-delta-profiles-differ", "component offset delta (fontbe/src/glyphs.rs process_composite_deltas: ot_round() -> (i16, i16))"),
+        "comptotal" => ("maxp-composite-total-wraps", "maxp-composite-total-over-u16", "maxp composite totals (fontbe/src/metrics_and_limits.rs update_composite_limits)"),
+        "npoints" => ("glyf-point-count-wraps", "glyf-end-point-u16-overflow", "points of one glyph (fontbe/src/metrics_and_limits.rs num_points `as u16`; write-fonts SimpleGlyph::write_into `cur as u16 - 1`)"),
+        "nglyphs" => ("glyph-count-wraps", "glyph-count-profiles-differ", "number of glyphs (fontir/src/ir.rs GlyphId16::new(i as _); fontbe/src/metrics_and_limits.rs num_glyphs)"),
+        "widthclass" => ("widthclass-wrong-value", "widthclass-zero-debug-panic", "WidthClass::try_from(u16) (fontdrasil/src/types.rs: (value - 1) on u16)"),
+        _ => ("c19-unknown", "c19-unknown", ""),
+    }
+}
+
+fn meets(e: &Expect, fields: &[i64]) -> bool {
+    match e {
+        Expect::MustReject => false,
+        Expect::Exactly(v) => v.as_slice() == fields,
+        Expect::AnyOf(alts) => alts.iter().any(|(v, approx)| {
+            v.len() == fields.len() && v.iter().zip(fields).enumerate().all(|(i, (a, b))| if approx.contains(&i) { (a - b).abs() <= 1 } else { a == b })
+        }),
+    }
+}
+
+// ------------------------------------------------------------------------------------------
+// 4. Gallina terms
+// ------------------------------------------------------------------------------------------
+
+fn cq(x: f64) -> String {
+    coq_q(x)
+}
+fn cz(x: i64) -> String {
+    coq_z(x)
+}
+fn coq_pts(c: &[(f64, f64, Pt)]) -> String {
+    coq_list(c, |(x, y, _)| format!("({}, {})", cq(*x), cq(*y)))
+}
+fn coq_aff(t: &[f64; 6]) -> String {
+    // srcgen: [xScale, xyScale, yxScale, yScale, xOffset, yOffset] = kurbo [a, b, c, d, e, f]
+    format!("({}, {}, {}, {}, {}, {})", cq(t[0]), cq(t[1]), cq(t[2]), cq(t[3]), cq(t[4]), cq(t[5]))
+}
+
+/// `src` term of a single-master design: the synthesised .notdef first, then the glyphs in order
+fn coq_src(d: &Design, origin: Option<f64>, hhea: [f64; 3]) -> String {
+    let m = &d.masters[0];
+    let order = m.glyph_order.clone().unwrap_or_else(|| m.glyphs.iter().map(|g| g.name.clone()).collect());
+    let gid = |n: &str| order.iter().position(|x| x == n).map(|i| i as i64 + 1).unwrap_or(0);
+    let mut gs = vec!["notdef_src".to_string()];
+    for name in &order {
+        let g = m.glyphs.iter().find(|g| &g.name == name).expect("glyph in order");
+        let h = g.height.unwrap_or(1000.0);
+        if g.components.is_empty() {
+            if g.contours.len() == 1 && g.contours[0].len() > 1000 {
+                gs.push(format!("(SrcSimple {} {} [zigzag {}%nat])", cq(g.advance), cq(h), g.contours[0].len()));
+            } else {
+                gs.push(format!("(SrcSimple {} {} {})", cq(g.advance), cq(h), coq_list(&g.contours, |c| coq_pts(c))));
+            }
+        } else if g.components.len() > 50 {
+            // the composite-total sources: k components of one base at offsets (i mod 100, i / 100)
+            gs.push(format!("(SrcComposite {} {} (grid_comps {} {}%nat))", cq(g.advance), cq(h), cz(gid(&g.components[0].0)), g.components.len()));
+        } else {
+            gs.push(format!("(SrcComposite {} {} {})", cq(g.advance), cq(h), coq_list(&g.components, |(b, t)| format!("({}, {})", cz(gid(b)), coq_aff(t)))));
+        }
+    }
+    format!(
+        "(mk_src [{}] {} {} {} {} {} {})",
+        gs.join("; "),
+        cq(hhea[0]),
+        cq(hhea[1]),
+        cq(hhea[2]),
+        coq_opt(&origin, |o| cq(*o)),
+        coq_list(&m.kerning, |(_, _, v)| cq(*v)),
+        {
+            let anchors: Vec<(f64, f64)> = order.iter().flat_map(|n| m.glyphs.iter().find(|g| &g.name == n).unwrap().anchors.iter().map(|(_, x, y)| (*x, *y))).collect();
+            coq_list(&anchors, |(x, y)| format!("({}, {})", cq(*x), cq(*y)))
+        }
+    )
+}
+
+fn coq_obs(o: &Obs) -> String {
+    match o.class.as_str() {
+        "font" => format!("(Emit {})", coq_list(&o.fields, |z| cz(*z))),
+        "error" => "Reject".into(),
+        _ => "Panic".into(),
+    }
+}
+
+/// Gallina bool: the model predicts both observations
+fn coq_case(c: &Case, dbg: &Obs, rel: &Obs) -> Option<String> {
+    let both = |model: &dyn Fn(&str) -> String| Some(format!("obs_eqb {} {} && obs_eqb {} {}", model("Debug"), coq_obs(dbg), model("Release"), coq_obs(rel)));
+    let via_build = |proj: &str, origin: Option<f64>, hhea: [f64; 3]| {
+        let src = build_source(c)?;
+        let s = coq_src(&src.design, origin, hhea);
+        both(&|p| format!("(project ({}) (build {} {}))", proj, p, s))
+    };
+    let dflt = [800.0, -200.0, 0.0];
+    match c.kind {
+        "adv" => via_build("fun f => [fst (nth 1 (f_hmtx f) (0, 0)); f_adv_max f]", None, dflt),
+        "vadv" => via_build("fun f => match f_vmtx f with Some v => [fst (nth 1 v (0, 0)); zmax0 (map fst v)] | None => [] end", Some(800.0), dflt),
+        "coord" | "diff" => via_build("fun f => dump_glyf (nth 1 (f_glyf f) GEmpty) ++ bbox_list (f_head f)", None, dflt),
+        "compoff" | "compbbox" => via_build("fun f => dump_glyf (nth 3 (f_glyf f) GEmpty) ++ bbox_list (f_head f)", None, dflt),
+        "scale" => via_build("fun f => dump_glyf (nth 2 (f_glyf f) GEmpty)", None, dflt),
+        "kern" => via_build("fun f => f_kern f", None, dflt),
+        "anchor" => via_build("fun f => flat_map (fun a => [fst a; snd a]) (f_anchor f)", None, dflt),
+        "vorig" => via_build("fun f => match f_vmtx f with Some v => [snd (nth 1 v (0, 0))] | None => [] end", Some(c.a), dflt),
+        "tsb" => via_build("fun f => match f_vmtx f with Some v => [snd (nth 1 v (0, 0))] | None => [] end", Some(c.b), dflt),
+        "hhea" => {
+            let mut h = dflt;
+            h[c.n as usize] = c.a;
+            via_build(["fun f => [f_asc f]", "fun f => [f_desc f]", "fun f => [f_gap f]"][c.n as usize], None, h)
+        }
+        "comptotal" => via_build("fun f => [x_max_comp_points (f_maxp f); x_max_comp_contours (f_maxp f); x_max_points (f_maxp f); x_max_comp_elements (f_maxp f)]", None, dflt),
+        "npoints" => via_build("fun f => x_max_points (f_maxp f) :: match nth 1 (f_glyf f) GEmpty with GSimple s => [zlen (so_ends s); last (so_ends s) (-1)] | _ => [-1] end", None, dflt),
+        "nglyphs" => {
+            // c.n - 1 empty glyphs after .notdef
+            let advs = if c.a == 1.0 { "true" } else { "false" };
+            both(&|p| format!("(project (fun f => [x_num_glyphs (f_maxp f); zlen (f_glyf f)]) (build {} (mk_src (notdef_src :: empty_glyphs {} {}%nat) (800#1) (-200#1) 0 None [] [])))", p, advs, c.n - 1))
+        }
+        "flatscale" => {
+            let (s1, s2) = (c.a, c.b);
+            let inner = format!("[(1, {}); (1, {})]", coq_aff(&[s2, 0.0, 0.0, s2, 0.0, 0.0]), coq_aff(&[1.0, 0.0, 0.0, 1.0, 300.0, 0.0]));
+            let nested = format!("[NNode {} {}; NLeaf 1 {}]", coq_aff(&[s1, 0.0, 0.0, s1, 0.0, 0.0]), inner, coq_aff(&[1.0, 0.0, 0.0, 1.0, 0.0, 300.0]));
+            both(&|p| format!("(omap dump_glyf (build_flattened {} [notdef_src; SrcSimple 600 1000 [unit100]] {}))", p, nested))
+        }
+        "hvar" => {
+            let (m0, m1) = (otr(c.a), otr(c.a + c.b));
+            both(&|_| format!("(Emit [sat_u16 {}; sat_u16 {} + delta_i16 {} {}])", cz(m0), cz(m0), cz(m0), cz(m1)))
+        }
+        "gvar" => {
+            // the masters' points are i16 (saturated) before the deltas are taken
+            let (x0, x1) = (otr(c.a), otr(c.a + c.b));
+            both(&|_| format!("(Emit (extent2 (sat_i16 {}) (instance_at_master1 (sat_i16 {}) (sat_i16 {}))))", cz(x0), cz(x0), cz(x1)))
+        }
+        "compdelta" => {
+            let (x0, x1) = (otr(c.a), otr(c.a + c.b));
+            both(&|_| format!("(Emit (shifted2 (sat_i16 {}) (sat_i16 {} + delta_i16 {} {})))", cz(x0), cz(x0), cz(x0), cz(x1)))
+        }
+        "widthclass" => both(&|p| format!("(omap (fun z => [z]) (width_class {} {}))", p, cz(c.n as i64))),
+        _ => None,
+    }
+}
+
+// ------------------------------------------------------------------------------------------
+// 5. driver
+// ------------------------------------------------------------------------------------------
+
+fn observe_all(cases: &[Case], threads: usize) -> Vec<Obs> {
+    use std::sync::atomic::{AtomicUsize, Ordering};
+    use std::sync::Mutex;
+    let next = AtomicUsize::new(0);
+    let out: Mutex<Vec<Option<Obs>>> = Mutex::new(vec![None; cases.len()]);
+    // heavy cases first so that they do not end up alone at the tail
+    let mut order: Vec<usize> = (0..cases.len()).collect();
+    order.sort_by_key(|i| match cases[*i].kind {
+        "nglyphs" => 0,
+        "npoints" => 1,
+        "comptotal" => 2,
+        _ => 3,
+    });
+    std::thread::scope(|s| {
+        for _ in 0..threads {
+            s.spawn(|| loop {
+                let k = next.fetch_add(1, Ordering::SeqCst);
+                if k >= order.len() {
+                    break;
+                }
+                let i = order[k];
+                let o = observe(&cases[i]);
+                out.lock().unwrap()[i] = Some(o);
+            });
+        }
+    });
+    out.into_inner().unwrap().into_iter().map(|o| o.expect("observed")).collect()
+}
+
 fn main() {
     let args: Vec<String> = std::env::args().collect();
     let args = &args[1..];
     let seed = arg_val(args, "--seed", 1);
     let n = arg_val(args, "--n", 100) as usize;
+    let threads = arg_val(args, "--threads", 6) as usize;
     let tier = args.iter().position(|a| a == "--tier").and_then(|i| args.get(i + 1)).cloned().unwrap_or_else(|| "quick".into());
     let worker = args.iter().any(|a| a == "--worker");
     let probe = args.iter().any(|a| a == "--probe");
     let only = args.iter().position(|a| a == "--only").and_then(|i| args.get(i + 1)).cloned();
+    if std::env::var("RAYON_NUM_THREADS").is_err() {
+        // fontc builds one rayon pool per compile; several compiles run side by side here
+        unsafe { std::env::set_var("RAYON_NUM_THREADS", "2") };
+    }
     if std::env::var("C19_LOUD").is_err() {
         quiet_panics();
     }
@@ -1276,19 +1729,121 @@ fn main() {
     if let Some(o) = &only {
         cases.retain(|c| c.kind == o);
     }
-    if worker || probe {
+    if probe {
         for c in &cases {
             let o = observe(c);
-            if probe {
-                println!("{:4} {:10} a={} b={} n={} [{}] -> {} {:?} {}", c.id, c.kind, c.a, c.b, c.n, c.draw, o.class, &o.fields[..o.fields.len().min(40)], &o.msg[..o.msg.len().min(160)]);
-            } else {
-                emit(obs_json(c.id, &o));
-            }
+            println!("{:4} {:10} a={} b={} n={} [{}] -> {} {:?} {}", c.id, c.kind, c.a, c.b, c.n, c.draw, o.class, &o.fields[..o.fields.len().min(40)], &o.msg[..o.msg.len().min(160)]);
         }
         return;
     }
-    let _ = (BufReader::new(std::io::empty()).lines().count(), Command::new("true").stdin(Stdio::null()));
+    if worker {
+        let obs = observe_all(&cases, threads);
+        for (c, o) in cases.iter().zip(&obs) {
+            emit(obs_json(c.id, o));
+        }
+        return;
+    }
+
+    // ---- 1. site table against the working tree
     let repo = std::env::var("VERIF_REPO").unwrap_or_else(|_| "/repo".into());
     let scan = scan_sites(&repo);
-    emit_stat(json!({"narrowing_idiom_lines_found": scan.found, "site_table_entries": scan.listed, "sites_by_class": scan.by_class}));
+
+    // ---- 2. both profiles
+    let profile = if cfg!(debug_assertions) { "debug" } else { "release" };
+    if profile != "debug" {
+        emit_violation_nf("harness-profile", "the driving c19 binary was not built with overflow checks (dev profile)".into(), json!({}));
+    }
+    let rel_bin = std::env::var("C19_RELEASE_BIN").unwrap_or_default();
+    let mut child = None;
+    if rel_bin.is_empty() || !std::path::Path::new(&rel_bin).exists() {
+        emit_violation_nf("harness-build-release", format!("release build of the harness not available ({rel_bin:?}): debug/release agreement cannot be checked"), json!({}));
+    } else {
+        let mut cmd = Command::new(&rel_bin);
+        cmd.arg("--worker").arg("--seed").arg(seed.to_string()).arg("--n").arg(n.to_string()).arg("--tier").arg(&tier).arg("--threads").arg(threads.to_string());
+        if let Some(o) = &only {
+            cmd.arg("--only").arg(o);
+        }
+        match cmd.stdin(Stdio::null()).stdout(Stdio::piped()).stderr(Stdio::null()).spawn() {
+            Ok(c) => child = Some(c),
+            Err(e) => emit_violation_nf("harness-build-release", format!("cannot start {rel_bin}: {e}"), json!({})),
+        }
+    }
+    let dbg = observe_all(&cases, threads);
+    let mut rel: BTreeMap<usize, Obs> = BTreeMap::new();
+    if let Some(mut ch) = child {
+        if let Some(out) = ch.stdout.take() {
+            for line in BufReader::new(out).lines().map_while(Result::ok) {
+                if let Ok(v) = serde_json::from_str::<Value>(&line) {
+                    if let Some((id, o)) = obs_from_json(&v) {
+                        rel.insert(id, o);
+                    }
+                }
+            }
+        }
+        let st = ch.wait();
+        if !matches!(st, Ok(s) if s.success()) {
+            emit_violation_nf("harness-release-crash", format!("release worker ended with {st:?} after {} of {} observations", rel.len(), cases.len()), json!({}));
+        }
+    }
+
+    // ---- 3/4. predicate and model terms
+    let mut dist: BTreeMap<String, usize> = BTreeMap::new();
+    let mut outcomes: BTreeMap<String, usize> = BTreeMap::new();
+    let mut rejected_by_panic: BTreeMap<String, usize> = BTreeMap::new();
+    let mut bytes_equal = 0usize;
+    let mut bytes_differ = 0usize;
+    for (c, d) in cases.iter().zip(&dbg) {
+        *dist.entry(format!("{}/{}", c.kind, c.draw)).or_default() += 1;
+        let Some(r) = rel.get(&c.id) else { continue };
+        let (sat_key, arith_key, what) = keys(c.kind);
+        let e = expect(c);
+        let representable = !matches!(e, Expect::MustReject);
+        let ctx = json!({"case": c.id, "kind": c.kind, "a": c.a, "b": c.b, "n": c.n, "draw": c.draw,
+            "debug": {"outcome": d.class, "fields": d.fields.iter().take(60).collect::<Vec<_>>(), "message": d.msg},
+            "release": {"outcome": r.class, "fields": r.fields.iter().take(60).collect::<Vec<_>>(), "message": r.msg},
+            "representable": representable});
+        *outcomes.entry(format!("{}:{}{}", c.kind, if representable { "fits:" } else { "unfit:" }, if d.class == r.class { d.class.clone() } else { format!("{}|{}", d.class, r.class) })).or_default() += 1;
+        let agree = d.class == r.class && d.fields == r.fields;
+        if d.class == "font" && r.class == "font" {
+            if d.sha == r.sha { bytes_equal += 1 } else { bytes_differ += 1 }
+        }
+        if !agree {
+            emit_violation(
+                arith_key,
+                format!(
+                    "{what}: a={} b={} n={}: debug build -> {} {}, release build -> {} {}",
+                    c.a, c.b, c.n, d.class,
+                    if d.class == "font" { format!("{:?}", &d.fields[..d.fields.len().min(24)]) } else { d.msg.clone() },
+                    r.class,
+                    if r.class == "font" { format!("{:?}", &r.fields[..r.fields.len().min(24)]) } else { r.msg.clone() }
+                ),
+                ctx.clone(),
+            );
+        } else if d.class == "font" {
+            if !meets(&e, &d.fields) {
+                let want = match &e {
+                    Expect::Exactly(v) => format!("representable, faithful fields {:?}", &v[..v.len().min(24)]),
+                    Expect::AnyOf(v) => format!("representable, e.g. {:?}", &v[0].0[..v[0].0.len().min(24)]),
+                    Expect::MustReject => "not representable: the build must fail or fall back".to_string(),
+                };
+                emit_violation(sat_key, format!("{what}: a={} b={} n={}: both builds emit a font with {:?}; {}", c.a, c.b, c.n, &d.fields[..d.fields.len().min(24)], want), ctx.clone());
+            }
+        } else {
+            if d.class == "panic" {
+                *rejected_by_panic.entry(c.kind.to_string()).or_default() += 1;
+            }
+            if representable {
+                emit_violation(&format!("{}-representable-value-rejected", c.kind), format!("{what}: a={} b={} n={}: representable, but both builds fail: {}", c.a, c.b, c.n, d.msg), ctx.clone());
+            }
+        }
+        if let Some(coq) = coq_case(c, d, r) {
+            emit_case(c.id, c.kind, coq, None, c.draw != "inrange", format!("{}:{}:{}:{}", c.kind, c.a, c.b, c.n), ctx);
+        }
+    }
+    emit_stat(json!({
+        "narrowing_idiom_lines_found": scan.found, "site_table_entries": scan.listed, "sites_by_class": scan.by_class,
+        "input_classes": dist, "outcomes_kind_fit_class": outcomes, "rejected_by_panic_in_both_profiles": rejected_by_panic,
+        "fonts_byte_identical_across_profiles": bytes_equal, "fonts_differing_across_profiles": bytes_differ,
+        "cases": cases.len(), "release_observations": rel.len(),
+    }));
 }
